@@ -1,7 +1,7 @@
 (* C11 requests 1100..1119: flags, balance, span traces. *)
 From Coq Require Import List ZArith Bool.
 From PV Require Import lib.Sx lib.Str lib.Result.
-From PV Require Import model.TextNodes model.TextWrite model.TextStyle spec.SpecTextStyle extract.OrCommon extract.OrC03.
+From PV Require Import model.TextNodes model.TextWrite model.TextStyle spec.SpecTextStyle spec.SpecTextChain extract.OrCommon extract.OrC03.
 Import ListNotations.
 Open Scope Z_scope.
 
@@ -39,5 +39,13 @@ Definition dispatch (code : Z) (arg : sx) : option sx :=
                   | _ => bad end)
   | 1106 => Some (match sx_nodes arg with Some l => of_flags (flags l) | None => bad end)
   | 1107 => Some (match sx_nodes arg with Some l => of_list (fun e => SL [of_bool (fst e); SI (snd e)]) (vtt_tag_evs l) | None => bad end)
+  (* 1110 (wave 7): the conversion chains on the models. arg = SL [SI which; SS extra1; SS extra2; nodes]
+     which 0 = DFXP -> SAMI -> DFXP, 1 = SAMI -> DFXP -> SAMI (extra1 only) -> option nodes *)
+  | 1110 => Some (match arg with
+                  | SL [SI w; SS e1; SS e2; ns] =>
+                      match sx_nodes ns with
+                      | Some l => of_opt (of_list of_node) (if w =? 0 then chain_dsd e1 e2 l else chain_sds e1 l)
+                      | None => bad end
+                  | _ => bad end)
   | _ => None
   end.
